@@ -17,6 +17,9 @@ from . import lexer
 REPO = os.environ.get("VERIF_REPO", "/repo")
 
 
+LABEL_RE = re.compile(r"//\s*\[((?:C\d\d\.[a-z0-9_\-]+)(?:,C\d\d\.[a-z0-9_\-]+)*)\]")
+
+
 class LostAnchor(Exception):
     """The real code no longer has the shape a contract is keyed on: UNDECIDED, never a violation."""
     pass
@@ -165,6 +168,19 @@ class Edit:
         self.s, self.e, self.new, self.rule, self.note, self.seq = s, e, new, rule, note, seq
 
 
+def inv_text(invariants, decreases=None):
+    """invariants: list of "text" or ("LABELS", "text"); labels become `// [LABELS]` markers the engine reads back."""
+    txt = "\n    invariant\n"
+    for x in invariants:
+        if isinstance(x, tuple):
+            txt += "        %s, // [%s]\n" % (x[1], x[0])
+        else:
+            txt += "        %s,\n" % x
+    if decreases:
+        txt += "    decreases %s\n" % decreases
+    return txt
+
+
 class Woven:
     """A real function being woven.  All positions are offsets into self.body
     (the original body text including its braces)."""
@@ -291,9 +307,7 @@ class Woven:
             if not mm:
                 raise LostAnchor("for header shape in %s" % self.qual())
             self.insert_at(mm.end(), "%s: " % iter_name, "G", "ghost iterator name")
-        txt = "\n    invariant\n" + "".join("        %s,\n" % x for x in invariants)
-        if decreases:
-            txt += "    decreases %s\n" % decreases
+        txt = inv_text(invariants, decreases)
         self.insert_at(ob, txt, "G", "loop #%d spec" % nth)
         return ob
 
@@ -407,7 +421,7 @@ class Unit:
                 # label markers inside raw chunks: `// [LABEL]` at end of a line
                 for k, ln in enumerate(t.split("\n")):
                     info = {"kind": "raw", "origin": ch[2], "oline": k + 1}
-                    mm = re.search(r"//\s*\[([A-Z]\d\d\.[a-z0-9_\-]+)\]", ln)
+                    mm = LABEL_RE.search(ln)
                     if mm:
                         info["label"] = mm.group(1)
                     lines.append(ln)
@@ -456,5 +470,11 @@ class Unit:
                                         "sline": body_line0 + w.ex.body.count("\n", 0, o)}
                 lines.append(cur)
                 lmap.append(cur_info or {"kind": "ghost", "fn": fq})
+        # label markers `// [C01.x,C03.y]` on any generated line
+        for i, ln in enumerate(lines):
+            if "label" not in lmap[i]:
+                mm = LABEL_RE.search(ln)
+                if mm:
+                    lmap[i]["label"] = mm.group(1)
         # function line ranges
         return "\n".join(lines) + "\n", lmap
